@@ -30,11 +30,19 @@ def cleanup(force=False):
         _dir[0] = None
 
 
+def declared_encoding(src):
+    """the encoding a source text declares for itself in its first line (# -*- coding: X -*-), utf-8 otherwise"""
+    import re
+
+    m = re.match(r"#.*?coding[:=]\s*([-\w.]+)", src.split("\n", 1)[0])
+    return m.group(1) if m else "utf-8"
+
+
 def load(src, prefix="vgen"):
-    """-> module imported from a freshly written file containing ``src``."""
+    """-> module imported from a freshly written file containing ``src`` (written in the encoding its first line declares)."""
     name = f"{prefix}_{os.getpid()}_{next(_counter)}"
     path = os.path.join(workdir(), name + ".py")
-    with open(path, "w", encoding="utf-8") as f:
+    with open(path, "w", encoding=declared_encoding(src)) as f:
         f.write(src)
     spec = importlib.util.spec_from_file_location(name, path)
     m = importlib.util.module_from_spec(spec)
@@ -47,7 +55,7 @@ def rewrite(m, src):
     """History: the file module ``m`` came from is edited on disk (later modification time) and loaded again in this process."""
     path = m.__file__
     st = os.stat(path)
-    with open(path, "w", encoding="utf-8") as f:
+    with open(path, "w", encoding=declared_encoding(src)) as f:
         f.write(src)
     os.utime(path, (st.st_atime + 2, st.st_mtime + 2))
     m.__spec__.loader.exec_module(m)  # what importlib.reload does for a module found on the path
